@@ -178,7 +178,7 @@ class SimFS:
         self.active = False
         self.fd_paths = {}
         self.bypass = []
-        self._announced = False
+        self._announced = 0  # depth: a finalizer that runs inside a sanctioned call makes sanctioned calls of its own
         self.reset()
 
     # -- per-run state ------------------------------------------------------
@@ -270,11 +270,11 @@ class SimFS:
         return None
 
     def _call(self, name, *a, **kw):
-        self._announced = True
+        self._announced += 1
         try:
             return _real[name](*a, **kw)
         finally:
-            self._announced = False
+            self._announced -= 1
 
     # -- patched entry points ----------------------------------------------
     def p_open(self, file, mode="r", buffering=-1, encoding=None, errors=None,
@@ -470,10 +470,10 @@ class SimFS:
 
         class C:
             def __enter__(s):
-                fs._announced = True
+                fs._announced += 1
 
             def __exit__(s, *a):
-                fs._announced = False
+                fs._announced -= 1
                 return False
 
         return C()
